@@ -8,7 +8,7 @@ from ..chain import COINS, COIN_NAMES
 from ..core import viol
 
 RULE = ("chains spread over 1..100 (quick) / 300 (thorough) blk files in layouts with disjoint height spans (one block per file, contiguous "
-        "runs), overlapping spans, two files interleaved height by height, a file revisited after a long gap, x ranges starting/stopping "
+        "runs, also stored in arrival instead of height order inside each file), overlapping spans, two files interleaved height by height, a file revisited after a long gap, x ranges starting/stopping "
         "inside a file. (1) trace spec over the H2 census of /proc/self/fd taken after every block: the set of descriptors open on blk*.dat "
         "files must be a subset of the files that still hold a block of a higher height (computed from the full index); (2) black-box: "
         "N* = smallest RLIMIT_NOFILE with which the single-file layout of the same chain succeeds (bisection), then every disjoint-span "
@@ -22,6 +22,10 @@ def build_layout(rng, chain, kind, nfiles):
         return layouts.make_layout(rng, chain, chain_coin(chain), assign="one_per_file", nfiles=n)
     if kind == "contiguous":
         return layouts.make_layout(rng, chain, chain_coin(chain), assign="contiguous", nfiles=nfiles)
+    if kind in ("contiguous-shuffled", "contiguous-reversed"):
+        # disjoint height spans, but blocks stored inside each file in arrival (not height) order
+        return layouts.make_layout(rng, chain, chain_coin(chain), assign="contiguous", nfiles=nfiles,
+                                   file_order="shuffled" if kind.endswith("shuffled") else "desc")
     if kind == "interleaved2":
         return layouts.make_layout(rng, chain, chain_coin(chain), assign="interleaved2", nfiles=nfiles)
     if kind == "round_robin":
@@ -150,7 +154,7 @@ def case(spec):
                 lo = mid + 1
         nstar = lo
         counters["nstar_calibrations"] = 1
-        slack = 2 if kind in ("one_per_file", "contiguous", "single") else (3 if kind in ("interleaved2", "revisit") else None)
+        slack = 2 if kind in ("one_per_file", "contiguous", "single", "contiguous-shuffled", "contiguous-reversed") else (3 if kind in ("interleaved2", "revisit") else None)
         if slack is not None:
             p, bad = run_once(binary, d, coin, chain, work, nofile=nstar + slack)
             counters["runs"] += 1
@@ -173,7 +177,8 @@ def plan(chk):
     n = 0
     big = 300 if chk.thorough else 100
     kinds = [("one_per_file", big, None), ("one_per_file", 40, None), ("contiguous", 60, 12), ("contiguous", 40, 2), ("interleaved2", 40, 8),
-             ("interleaved2", 24, 2), ("round_robin", 30, 5), ("revisit", 40, None), ("single", 30, None)]
+             ("interleaved2", 24, 2), ("round_robin", 30, 5), ("revisit", 40, None), ("single", 30, None),
+             ("contiguous-shuffled", 80, 20), ("contiguous-reversed", 60, 12), ("contiguous-shuffled", 30, 3)]
     reps = 4 if chk.thorough else 1
     for rep in range(reps):
         for kind, blocks, nfiles in kinds:
@@ -182,7 +187,7 @@ def plan(chk):
                               rlimit=True))
     for i in range(40 if chk.thorough else 6):
         n += 1
-        kind = rng.choice(["one_per_file", "contiguous", "interleaved2", "round_robin", "revisit"])
+        kind = rng.choice(["one_per_file", "contiguous", "interleaved2", "round_robin", "revisit", "contiguous-shuffled", "contiguous-reversed"])
         specs.append(dict(case="case", coin=rng.choice(COIN_NAMES), chain_seed=chk.seed * 100 + n, n=n, kind=kind, blocks=rng.randint(8, 60),
                           nfiles=rng.randint(2, 20), rlimit=(i % 2 == 0)))
     return specs
